@@ -28,6 +28,20 @@ def run_rs_demo(demo_dir, mode):
     flag = "--release" if mode == "release" else ""
     src = open(demo_dir + "/demo.rs").read()
     feat = "--features verif_hooks" if "verif" in src else ""
+    if "fn main" in src:
+        # a small program using the public API: run as a cargo example and compare its output with expected.txt
+        import re
+        os.makedirs(WT + "/yarel/examples", exist_ok=True)
+        shutil.copy(demo_dir + "/demo.rs", WT + "/yarel/examples/verif_demo.rs")
+        args = ""
+        if "env::args" in src and os.path.exists(demo_dir + "/demo.yl"):
+            ns = re.findall(r"^N=(\d+)", open(demo_dir + "/expected.txt").read(), re.M)
+            args = demo_dir + "/demo.yl " + " ".join(ns)
+        rc, out, err = sh("cargo run --offline -q %s %s -p yarel --example verif_demo -- %s" % (flag, feat, args), cwd=WT, timeout=1800)
+        os.remove(WT + "/yarel/examples/verif_demo.rs")
+        exp = norm(open(demo_dir + "/expected.txt").read())
+        ok = norm(out) == exp or norm(out + err) == exp
+        return (0 if ok else 1), out + err, ""
     shutil.copy(demo_dir + "/demo.rs", WT + "/yarel/tests/verif_demo.rs")
     rc, out, err = sh("cargo test --offline -q %s %s -p yarel --test verif_demo 2>&1 | tail -30" % (flag, feat), cwd=WT, timeout=1800)
     os.remove(WT + "/yarel/tests/verif_demo.rs")
